@@ -82,13 +82,14 @@ Proof.
   apply in_map_iff. exists (N.to_nat f). split; [lia|]. apply in_seq. lia.
 Qed.
 
-(* the caller's bits survive, only the two marshalling bits are added *)
+(* whatever the caller's flag: only the two marshalling bits differ afterwards *)
 Definition flags_caller_ok (f : N) : bool :=
-  (N.ldiff (N.lor f fCompressed) 3 =? N.ldiff f 3)
-  && (N.ldiff (N.lor f fEncrypted) 3 =? N.ldiff f 3)
-  && (N.ldiff (N.lor (N.lor f fCompressed) fEncrypted) 3 =? N.ldiff f 3)
-  && (N.land f (N.lor f fCompressed) =? f) && (N.land f (N.lor f fEncrypted) =? f)
-  && (N.land f (N.lor (N.lor f fCompressed) fEncrypted) =? f).
+  let f0 := N.ldiff f fMarshal in
+  (N.ldiff f0 3 =? N.ldiff f 3)
+  && (N.ldiff (N.lor f0 fCompressed) 3 =? N.ldiff f 3)
+  && (N.ldiff (N.lor f0 fEncrypted) 3 =? N.ldiff f 3)
+  && (N.ldiff (N.lor (N.lor f0 fCompressed) fEncrypted) 3 =? N.ldiff f 3)
+  && (N.land f0 3 =? 0) && (f0 <? 256).
 
 Lemma flags_caller_sweep f : f < 256 -> flags_caller_ok f = true.
 Proof.
@@ -96,6 +97,14 @@ Proof.
   assert (E : forallb flags_caller_ok (map N.of_nat (seq 0 256)) = true) by (vm_compute; reflexivity).
   rewrite forallb_forall in E. apply E.
   apply in_map_iff. exists (N.to_nat f). split; [lia|]. apply in_seq. lia.
+Qed.
+
+Lemma ldiff_marshal_clean f : N.land f 3 = 0 -> N.ldiff f fMarshal = f.
+Proof.
+  intros H. change fMarshal with 3. apply N.bits_inj. intro k.
+  rewrite N.ldiff_spec. apply (f_equal (fun x => N.testbit x k)) in H.
+  rewrite N.land_spec, N.bits_0 in H.
+  destruct (N.testbit f k), (N.testbit 3 k); try reflexivity; discriminate.
 Qed.
 
 (* ---------------------------------------------------------------------------------- *)
